@@ -784,9 +784,14 @@ class CompositeRepetitionCodeDescription(IRepetitionCodeDescription):
 
             # Force only required parking operations
             filtered_park_operations: List[Operation[IQubitID]] = _gate_sequence.park_operations
+            edge_identifiers: List[IEdgeID] = [element.identifier for element in filtered_gate_operations]
+            required_park_operations: List[Operation[IQubitID]] = [Operation.type_park(element) for element in self._connectivity.qubit_ids if get_requires_parking(element=element, edge_ids=edge_identifiers, connectivity=self._connectivity)]
             if self._only_required_parking_operations:
-                edge_identifiers: List[IEdgeID] = [element.identifier for element in filtered_gate_operations]
-                filtered_park_operations = [Operation.type_park(element) for element in self._connectivity.qubit_ids if get_requires_parking(element=element, edge_ids=edge_identifiers, connectivity=self._connectivity)]
+                filtered_park_operations = required_park_operations
+            else:
+                # A qubit whose gate is excluded becomes idle and may now require parking itself
+                parked_qubit_ids: List[IQubitID] = [operation.identifier for operation in filtered_park_operations]
+                filtered_park_operations = filtered_park_operations + [operation for operation in required_park_operations if operation.identifier not in parked_qubit_ids]
 
             result.append(GateSequenceLayer(
                 _park_operations=filtered_park_operations,
